@@ -203,9 +203,9 @@ func wrapTerm(x string, t types.Type, cheap bool) string {
 		return fmt.Sprintf("(let ((wx!0 %s)) (ite (> wx!0 %s) (- wx!0 %s) (ite (< wx!0 %s) (+ wx!0 %s) wx!0)))", x, smtInt(hi), size, smtInt(lo), size)
 	}
 	if lo.Sign() == 0 {
-		return fmt.Sprintf("(mod %s %s)", x, size)
+		return fmt.Sprintf("(let ((wy!0 %s)) (ite (and (<= 0 wy!0) (<= wy!0 %s)) wy!0 (mod wy!0 %s)))", x, smtInt(hi), size)
 	}
-	return fmt.Sprintf("(let ((wm!0 (mod %s %s))) (ite (> wm!0 %s) (- wm!0 %s) wm!0))", x, size, smtInt(hi), size)
+	return fmt.Sprintf("(let ((wy!0 %s)) (ite (and (<= %s wy!0) (<= wy!0 %s)) wy!0 (let ((wm!0 (mod wy!0 %s))) (ite (> wm!0 %s) (- wm!0 %s) wm!0))))", x, smtInt(lo), smtInt(hi), size, smtInt(hi), size)
 }
 
 func inRange(x string, t types.Type) string {
